@@ -213,6 +213,27 @@ fn check_state(s: &St, ctx: &mut Ctx) -> Vec<St> {
     if opt != want_opt || cast_opt != want_opt {
         viol(ctx, "into_opt_i64 / Cast<Option<i64>>", None, json!({"family": fam, "unit": UNITS[s.u as usize], "value": s.v}), format!("{want_opt:?}"), format!("{opt:?} / {cast_opt:?}"));
     }
+    // every optional numeric target: NaT -> None, a valid instant -> Some (the numeric value is C15's subject)
+    let some_flags: Vec<(&str, bool)> = by_unit!(s.u, U => {
+        let d = DateTime::<U>::new(s.v);
+        vec![
+            ("Option<u8>", Cast::<Option<u8>>::cast(d).is_some()),
+            ("Option<u64>", Cast::<Option<u64>>::cast(d).is_some()),
+            ("Option<i32>", Cast::<Option<i32>>::cast(d).is_some()),
+            ("Option<usize>", Cast::<Option<usize>>::cast(d).is_some()),
+            ("Option<isize>", Cast::<Option<isize>>::cast(d).is_some()),
+            ("Option<f32>", Cast::<Option<f32>>::cast(d).is_some()),
+            ("Option<f64>", Cast::<Option<f64>>::cast(d).is_some()),
+            ("f64 (NaN for NaT)", !Cast::<f64>::cast(d).is_nan()),
+            ("f32 (NaN for NaT)", !Cast::<f32>::cast(d).is_nan()),
+        ]
+    });
+    ctx.evals += some_flags.len() as u64;
+    for (tname, is_some) in some_flags {
+        if is_some != (s.v != NAT) {
+            viol(ctx, "Cast<Option<number>> / Cast<float> of a date-time", None, json!({"family": fam, "unit": UNITS[s.u as usize], "value": s.v, "nat": s.v == NAT, "target": tname}), if s.v == NAT { "null".into() } else { "non-null".into() }, if is_some { "non-null".into() } else { "null".into() });
+        }
+    }
     let want_cr = if s.v == NAT { None } else { chrono_of(s.u, s.v) };
     if cr != want_cr {
         viol(ctx, "as_cr", None, json!({"family": fam, "unit": UNITS[s.u as usize], "value": s.v}), format!("{want_cr:?}"), format!("{cr:?}"));
